@@ -1,5 +1,4 @@
 import RosuModel.Lemmas.TaikoPreAll
-import RosuModel.Lemmas.TaikoGradFixNth
 import RosuModel.Props.C02
 
 /-!
@@ -18,19 +17,13 @@ prefix of difficulty objects whose colour / rhythm data were computed from the w
   skills;
 * `taiko_paths_agree_on_preprocessed`: for evaluators that may read *anything* of that structure
   (including data of later objects), the `i`-th gradual value equals the one-shot value for
-  `passed_objects(i)` — `C02.taiko_next_eq_prefix_partial` instantiated with such skills (same
-  hypothesis: first two objects hits, ≥ 3 objects = recorded finding outside it);
+  `passed_objects(i)` — `C02.taiko_next_eq_prefix` instantiated with such skills, for every object
+  list (unconditional since the fix of `TaikoGradualDifficulty::{next,nth}`, which was proposed
+  and proved here first and is now the model of `Model/Gradual.lean`);
 * `colour_data_not_prefix_stable`: the structure is *not* prefix stable — preprocessing the
   truncated map gives the processed objects different colour data (so "difficulty after `n`
   objects" is not the difficulty of the map cut after `n` objects; an observation, both paths of
   the crate agree with each other).
-
-* `taiko_fixed_next_eq_prefix`, `taiko_fixed_len_tracks`: the **proposed repair** of recorded finding
-  #4 (`docs/proposed-fix-taiko-gradual-first-two.patch`, modelled in `Model/TaikoGradFix.lean`, not
-  part of /repo) satisfies the `next` / value-count / `len` clauses of C02 for **every** object
-  list — no "first two objects are hits" and no "at least three objects" hypothesis; `len()` never
-  underflows, also after exhaustion.  (The final-value clause still needs "the last object is a
-  hit": finding #4b is a disagreement inside the one-shot path and is not touched.)
 
 Tie: `TKPRE` lines (the real structure for several `passed_objects` values is compared bit for bit
 with the model's, which ignores `take`), oracle `taiko-pre-depends-on-take` and
@@ -82,16 +75,14 @@ theorem counters_are_taikoCreate (A : Arith T) (clock : T) (objs : List (Obj T))
 def skillsOn (init : S) (step : Pre T → S → Nat → S) (P : Pre T) : Skills S := ⟨init, step P⟩
 
 /-- With evaluators reading anything of the (full-list) structure, the `i`-th gradual value is the
-one-shot value for `passed_objects(i)`, exactly `H` values are produced and announced — on maps
-whose first two objects are hits and that have at least three objects (outside: recorded finding
-`taiko-gradual-first-two-objects`, witnesses in `Props/C02.lean`). -/
+one-shot value for `passed_objects(i)`, exactly `H` values are produced and announced — for every
+object list. -/
 theorem taiko_paths_agree_on_preprocessed (A : Arith T) (clock : T) (objs : List (Obj T))
-    (init : S) (step : Pre T → S → Nat → S) (rest : List Bool) (hne : rest ≠ [])
-    (hk : (objs.map fun o => o.kind.isHit) = true :: true :: rest) :
+    (init : S) (step : Pre T → S → Nat → S) :
     ∃ P, oneShotStructure A clock objs 0 = some P ∧
       let sk := skillsOn init step P
       let hits := objs.map fun o => o.kind.isHit
-      let H := 2 + hitsIn rest
+      let H := hitsIn hits
       ((taikoMachine sk hits).nexts (taikoNew sk hits) H).1 =
         (List.range H).map (fun d => Res.some (taikoOneShot sk hits (d + 1))) ∧
       ((taikoMachine sk hits).next ((taikoMachine sk hits).nexts (taikoNew sk hits) H).2).1 = .none ∧
@@ -99,14 +90,7 @@ theorem taiko_paths_agree_on_preprocessed (A : Arith T) (clock : T) (objs : List
   obtain ⟨P, hP, _⟩ := preprocess_spec A clock objs
   refine ⟨P, by simp [oneShotStructure, createDifficultyObjects, hP], ?_⟩
   intro sk hits H
-  have : hits = true :: true :: rest := hk
-  rw [this]
-  exact taiko_next_eq_prefix_partial sk rest hne
-
-/-- non-vacuity of the hypotheses of `taiko_paths_agree_on_preprocessed` -/
-example : ∃ (objs : List (Obj Int)) (rest : List Bool), rest ≠ [] ∧
-    (objs.map fun o => o.kind.isHit) = true :: true :: rest :=
-  ⟨[⟨0, .centre⟩, ⟨100, .rim⟩, ⟨200, .nonhit⟩, ⟨300, .centre⟩], [false, true], by simp, rfl⟩
+  exact taiko_next_eq_prefix sk hits
 
 /-- The colour data of a processed object depends on objects that come *after* the processed
 prefix: for the map `c c c r r` (difficulty objects `c r r`) the second difficulty object belongs to
@@ -117,83 +101,6 @@ theorem colour_data_not_prefix_stable :
     let full : List (Obj Int) := [⟨0, .centre⟩, ⟨100, .centre⟩, ⟨200, .centre⟩, ⟨300, .rim⟩, ⟨400, .rim⟩]
     ((preprocess intArith 1 full).bind (·.colour[1]?)) = some (1, 0, 0, 0) ∧
     ((preprocess intArith 1 (full.take 4)).bind (·.colour[1]?)) = some (0, 0, 1, 0) := by
-  decide
-
-/-! ## The proposed repair of `TaikoGradualDifficulty::next` (finding #4) -/
-
-/-- **Repaired machine, every object list**: the first `H` calls of `next` (`H` = number of hits)
-return exactly the one-shot results for `passed_objects = 1, …, H`, the next call returns `None`, and
-`len()` announces `H`. -/
-theorem taiko_fixed_next_eq_prefix (sk : Skills S) (objs : List Bool) :
-    let H := hitsIn objs
-    ((taikoMachineFixed sk objs).nexts (taikoNew sk objs) H).1 =
-      (List.range H).map (fun d => Res.some (taikoOneShot sk objs (d + 1))) ∧
-    ((taikoMachineFixed sk objs).next ((taikoMachineFixed sk objs).nexts (taikoNew sk objs) H).2).1 = .none ∧
-    (taikoMachineFixed sk objs).len (taikoNew sk objs) = some H := by
-  intro H
-  obtain ⟨hv, hc⟩ := taikoFixed_nexts_spec sk objs H (taikoNew sk objs) 0 (fixCanon_new sk objs) (by omega)
-  refine ⟨?_, ?_, ?_⟩
-  · rw [hv]
-    apply List.map_congr_left
-    intro d hd
-    have hdlt : d < H := by simpa using hd
-    simp only [Nat.zero_add]
-    rw [taikoOneShot_general sk objs (d + 1) (by omega) (by omega)]
-  · simp only [Nat.zero_add] at hc
-    have := ((taikoNextFixed_spec sk objs _ H hc).2 rfl).1
-    show optToRes (taikoNextFixed sk objs _).1 = _
-    rw [this]; rfl
-  · simp [taikoMachineFixed, taikoLen, taikoNew, Gradual.csub, hitsIn, H]
-
-/-- **Repaired machine**: `len()` never underflows and always equals the number of values still to
-come — after `k ≤ H` values it is `H - k`, and after the exhausted call it is `0`. -/
-theorem taiko_fixed_len_tracks (sk : Skills S) (objs : List Bool) (k : Nat) (hk : k ≤ hitsIn objs) :
-    (taikoMachineFixed sk objs).len ((taikoMachineFixed sk objs).nexts (taikoNew sk objs) k).2 =
-      some (hitsIn objs - k) ∧
-    (taikoMachineFixed sk objs).len
-      ((taikoMachineFixed sk objs).next
-        ((taikoMachineFixed sk objs).nexts (taikoNew sk objs) (hitsIn objs)).2).2 = some 0 := by
-  obtain ⟨_, hc⟩ := taikoFixed_nexts_spec sk objs k (taikoNew sk objs) 0 (fixCanon_new sk objs) (by omega)
-  obtain ⟨_, hcH⟩ := taikoFixed_nexts_spec sk objs (hitsIn objs) (taikoNew sk objs) 0
-    (fixCanon_new sk objs) (by omega)
-  simp only [Nat.zero_add] at hc hcH
-  refine ⟨?_, ?_⟩
-  · show Gradual.csub (objs.filter id).length _ = _
-    rw [hc.idx]
-    simp [Gradual.csub, hitsIn] at hk ⊢
-    exact hk
-  · have := ((taikoNextFixed_spec sk objs _ _ hcH).2 rfl).2
-    show Gradual.csub (objs.filter id).length (taikoNextFixed sk objs _).2.idx = _
-    rw [this]
-    simp [Gradual.csub, hitsIn]
-
-/-- **Repaired machine**: `nth(n)` after any `k ≤ H` values never panics; with `r = H - k` values
-remaining it returns `None` when `r = 0` and otherwise exactly the value number `k + min(n, r-1) + 1`,
-i.e. what `min(n + 1, r)` calls of `next` would return last (for `n ≥ r` that is the recorded
-`gradual-nth-clamps-to-last` behaviour, untouched). -/
-theorem taiko_fixed_nth_eq_nexts (sk : Skills S) (objs : List Bool) (k n : Nat) (hk : k ≤ hitsIn objs) :
-    let g := ((taikoMachineFixed sk objs).nexts (taikoNew sk objs) k).2
-    (k = hitsIn objs → ((taikoMachineFixed sk objs).nth g n).1 = .none) ∧
-    (k < hitsIn objs →
-      ((taikoMachineFixed sk objs).nth g n).1 =
-        .some (taikoOneShot sk objs (k + min n (hitsIn objs - k - 1) + 1))) := by
-  intro g
-  obtain ⟨_, hc⟩ := taikoFixed_nexts_spec sk objs k (taikoNew sk objs) 0 (fixCanon_new sk objs) (by omega)
-  simp only [Nat.zero_add] at hc
-  have hs := taikoNthFixed_spec sk objs g k n hc
-  refine ⟨fun h => (hs.1 h).1, fun h => ?_⟩
-  rw [taikoOneShot_general sk objs _ (by omega) (by omega)]
-  exact (hs.2 h).1
-
-/-- The inputs on which the unrepaired machine fails (`C02.taiko_first_nonhit_fails`,
-`taiko_short_map_fails`) evaluated on the repaired one. -/
-example :
-    ((taikoMachineFixed unitSkills' [true, false, true, true]).nexts
-        (taikoNew unitSkills' [true, false, true, true]) 3).1 =
-      [1, 2, 3].map (fun i => Res.some (taikoOneShot unitSkills' [true, false, true, true] i)) ∧
-    ((taikoMachineFixed unitSkills' [true, true]).nexts (taikoNew unitSkills' [true, true]) 3).1 =
-      [Res.some (taikoOneShot unitSkills' [true, true] 1), Res.some (taikoOneShot unitSkills' [true, true] 2),
-       Res.none] := by
   decide
 
 end Rosu.C02c
